@@ -45,13 +45,17 @@ contract(T + ".run", "C19",
                  # nothing blocked and everything completed so far => the current signal is what the pipeline produced
              ],
              "property_level": ["implies(self.halt_on_failure, blocked_at is None)", "halt-stops", "amplification-clamped-product",
-                                "composition", "false-or-raising-gate-never-completes", "blocked-stage-not-completed"],
+                                "composition", "false-or-raising-gate-never-completes", "blocked-stage-not-completed",
+                                "unrecovered-failure-of-a-required-stage-halts"],
              "types": {"stage_results": "list:obj:StageResult", "blocked_at": "opt:str", "current_signal": "any",
                        "cumulative_amplification": "real"},
              "step": {
                  "blocked-stage-not-completed": "implies(calls_in_iter('.processor') == 0 and calls_in_iter('.on_error') == 0, "
                                                 "count_of(stage_results, 'completed') == count_of(at_head(stage_results), 'completed'))",
                  "halt-stops": "implies(self.halt_on_failure and blocked_at is not None, _exit == 'break')",
+                 # a required stage whose processor failed and was not recovered by its error handler halts a halt-on-failure pipeline
+                 "unrecovered-failure-of-a-required-stage-halts": "implies(self.halt_on_failure and stage.required and raised('.processor') and "
+                                                                  "(stage.on_error is None or raised('.on_error')), _exit == 'break' and blocked_at is not None)",
                  "amplification-clamped-product": "cumulative_amplification == (min(self.max_amplification, at_head(cumulative_amplification) * stage.amplification) "
                                                   "if (calls_in_iter('.processor') == 1 and not raised('.processor')) else at_head(cumulative_amplification))",
                  "composition": "implies(calls_in_iter('.processor') == 1 and not raised('.processor'), current_signal is returned_in_iter('.processor'))",
